@@ -71,6 +71,11 @@ WideCases(op) ==
    \A a \in WideShapes : \A b \in {<<a[1], 1>>, <<1, a[2]>>, <<>>, <<2, 1>>, <<1, 3>>, <<a[2]>>} :
       PrintT(<<"CASE", ToJson([CaseOf(op, "f32", a, b) EXCEPT !.feat = @ \o <<"wide_extents">>])>>)
       /\ (op = "MultidirectionalBroadcast" => PrintT(<<"CASE", ToJson([CaseOf(op, "f32", b, a) EXCEPT !.feat = @ \o <<"wide_extents">>])>>))
+\* very high ranks (66 axes): an operand stretched along an axis beyond position 64, another prepended with 65 axes
+HighRankCases(op) ==
+   LET lead2 == [i \in 1..66 |-> IF i = 1 THEN 2 ELSE 1] tail3 == [i \in 1..66 |-> IF i = 66 THEN 3 ELSE 1] mid == [i \in 1..66 |-> IF i = 65 THEN 2 ELSE 1] IN
+   \A p \in {<<<<3>>, lead2>>, <<tail3, lead2>>, <<lead2, tail3>>, <<lead2, <<3>>>>, <<tail3, mid>>, <<mid, <<2, 3>>>>, <<lead2, lead2>>} :
+      PrintT(<<"CASE", ToJson([CaseOf(op, "f32", p[1], p[2]) EXCEPT !.feat = @ \o <<"rank66">>])>>)
 \* tiling law (Outcome.tla): the flagged operands are repeated beyond a million elements by the harness
 TileVariants == {<<<<3, 2>>, <<2>>, {1}>>, <<<<3>>, <<1>>, {1}>>, <<<<1>>, <<3>>, {2}>>, <<<<3, 1>>, <<1, 2>>, {1}>>, <<<<3, 2>>, <<3, 1>>, {1, 2}>>, <<<<3>>, <<>>, {1}>>,
                  <<<<3, 2>>, <<3, 2>>, {1, 2}>>, <<<<3, 1, 2>>, <<2, 1>>, {1}>>}
@@ -80,7 +85,7 @@ TileCases(op) ==
       TileLaw(LAMBDA ins : IF op = "MultidirectionalBroadcast" THEN Multi(ins[1], ins[2]) ELSE Uni(ins[1], ins[2]), c.inputs, v[3]) =>
          PrintT(<<"CASE", ToJson([c EXCEPT !.feat = @ \o <<"tile_law">>] @@ [tile |-> TileField(v[3])])>>)
 Emit == /\ ~st.done
-        /\ (st.dt = "f32" /\ st.a = <<>> /\ st.b = <<>> => ValueCases(st.op) /\ LongCases(st.op) /\ TileCases(st.op) /\ WideCases(st.op))
+        /\ (st.dt = "f32" /\ st.a = <<>> /\ st.b = <<>> => ValueCases(st.op) /\ LongCases(st.op) /\ TileCases(st.op) /\ WideCases(st.op) /\ HighRankCases(st.op))
         /\ PrintT(<<"CASE", ToJson(CaseOf(st.op, st.dt, st.a, st.b))>>)
         /\ (st.dt = "f32" /\ Len(st.a) <= 2 /\ Len(st.b) <= 2 =>
               \A p \in MixedPairs : PrintT(<<"CASE", ToJson(MixedCase(st.op, p[1], p[2], st.a, st.b))>>))
